@@ -222,11 +222,11 @@ class DistanceF64(Harness):
     xval = False
     fp = True
 
-    def __init__(self, wrong=None, families=False):
-        self.wrong, self.families = wrong, families
-        self.name = "coords.distance.float64" + (".special_first" if families else "") + (".twin-" + wrong if wrong else "")
+    def __init__(self, wrong=None, family=None):
+        self.wrong, self.family = wrong, family
+        self.name = "coords.distance.float64" + ("." + family if family else "") + (".twin-" + wrong if wrong else "")
         self.bounds = ("two float64 vectors with |component| <= 1 and squared norm (as computed in float64) within 2^-51 of 1 -- what "
-                       "to_3d can return; all 2^384 bit patterns in that set")
+                       "to_3d can return; all 2^384 bit patterns in that set" + {None: "", "x_axis": " with a = (1, 0, 0)", "antipodal": " with b = -a"}[family])
         self.assumptions = ("to_3d returns vectors whose float64 squared norm is within 2 ulp of 1",
                             "libm arcsin: finite, sign preserving, zero only at zero (no accuracy claim about arcsin itself)")
         self.must_fail = wrong is not None
@@ -242,12 +242,11 @@ class DistanceF64(Harness):
                 continue  # the twin only has to show that the obligations can fail: any vectors in the box
             n2 = v[0, 0] * v[0, 0] + v[0, 1] * v[0, 1] + v[0, 2] * v[0, 2]
             eng.assume((n2 >= 1.0 - 2.0**-51) & (n2 <= 1.0 + 2.0**-51))
-        # search order only (all cases are explored and the last contains the others): special positions first, because a
-        # bit-blasted search finds counterexamples there in seconds and in the general case only after tens of minutes
-        d["family"] = eng.choose(3, "special_positions_first") if self.families else 2
-        if d["family"] == 0:  # a is the x axis
+        # sub-families of the general case, run as separate harnesses: they add no claim (the unrestricted harness contains
+        # them) but a bit-blasted search finds counterexamples there in seconds and in the general case only after many minutes
+        if self.family == "x_axis":
             eng.assume((d["a"][0, 0] == 1.0) & (d["a"][0, 1] == 0.0) & (d["a"][0, 2] == 0.0))
-        elif d["family"] == 1:  # exactly opposite vectors
+        elif self.family == "antipodal":
             for i in range(3):
                 eng.assume(d["b"][0, i] == -d["a"][0, i])
         return d
@@ -268,6 +267,95 @@ class DistanceF64(Harness):
         return [Check("never_raises_for_unit_vectors", cond=True),
                 Check("distinct_points_have_positive_distance", cond=((~far) | pos) if isinstance(far, SB) else ((not far) or bool(pos))),
                 Check("non_negative", cond=(ang >= 0) if isinstance(pos, SB) else bool(ang >= 0))]
+
+
+class From3dF64(Harness):
+    """IEEE binary64 semantics of from_3d for an arbitrary (not normalised) vector, e.g. the mean of unit vectors: the
+    argument handed to arccos stays inside [-1, 1] (no NaN) and the right ascension, after the rounded `% 2 pi`, lies in
+    [0, 2 pi) -- never equal to 2 pi"""
+
+    functions = (AngularCoordinates.from_3d, sgn)
+    modules = MODS
+    xval = False
+    fp = True
+
+    def __init__(self, wrong=None):
+        self.wrong = wrong
+        self.name = "coords.from_3d.float64" + (".twin-" + wrong if wrong else "")
+        self.bounds = ("one float64 vector, every bit pattern with max |component| in [2^-500, 2^500] (squares neither overflow "
+                       "nor underflow to zero)")
+        self.assumptions = ("libm arccos / arcsin: NaN outside [-1, 1]; arccos in [0, fl(pi)], zero only at 1 and >= 2^-27 "
+                            "below 1; arcsin finite, |r| <= fl(pi/2)", "numpy's % on floats modelled for |x| < modulus")
+        self.must_fail = wrong is not None
+
+    def make_inputs(self, eng):
+        from vf import fpx
+
+        v = fpx.fparr("v", (1, 3))
+        big = [abs(c) >= 2.0**-500 for c in v.ravel()]
+        for c in v.ravel():
+            eng.assume(abs(c) <= 2.0**500)
+        eng.assume(big[0] | big[1] | big[2])
+        return {"v": v}
+
+    def concrete_inputs(self, m, inp):
+        return concretise(m, inp)
+
+    def body(self, inp):
+        with np.errstate(all="ignore"):
+            c = AngularCoordinates.from_3d(inp["v"].copy())
+        ra, dec = c.ra[0], c.dec[0]
+        two_pi = 2.0 * np.pi if self.wrong != "closed" else 0.0
+        # (that z / |v| stays inside [-1, 1], i.e. that the declination is never NaN, was tried as well: cvc5 and z3 both
+        #  time out on sqrt(x*x + y*y + z*z) >= |z| over binary64 -- not claimed)
+        if isinstance(ra, SV):
+            return [Check("ra_in_half_open_range", cond=(ra >= 0.0) & (ra < two_pi))]
+        return [Check("ra_in_half_open_range", cond=bool(0.0 <= ra < two_pi))]
+
+
+class To3dF64(Harness):
+    """IEEE binary64 semantics of to_3d next to the poles: for every declination that is not exactly +-fl(pi/2) the x-y
+    projection of the unit vector must not vanish -- otherwise from_3d cannot recover the right ascension (conversions
+    mutually inverse at every position)"""
+
+    functions = (AngularCoordinates.to_3d,)
+    modules = MODS
+    xval = False
+    fp = True
+
+    def __init__(self, wrong=None):
+        self.wrong = wrong
+        self.name = "coords.to_3d.float64" + (".twin-" + wrong if wrong else "")
+        self.bounds = "one coordinate, every float64 ra in [0, 2 pi) and dec with |dec| <= fl(pi/2)"
+        self.assumptions = ("libm sin / cos are uninterpreted; assumed: values in [-1, 1], max(|sin|,|cos|) >= 1/2, cos >= 2^-54 on "
+                            "[-fl(pi/2), fl(pi/2)], |sin x| <= |x|, sin(0) = 0, cos(0) = 1, |sin x| < 1 for |x| <= T and = 1 for T < |x| <= fl(pi/2) with T (about pi/2 - 1.05e-8) measured on the platform libm by bisection",)
+        self.must_fail = wrong is not None
+
+    def make_inputs(self, eng):
+        from vf import fpx
+
+        c = fpx.fparr("c", (1, 2))
+        eng.assume((c[0, 0] >= 0.0) & (c[0, 0] < 2.0 * np.pi))
+        eng.assume(abs(c[0, 1]) <= np.pi / 2)
+        return {"c": c}
+
+    def concrete_inputs(self, m, inp):
+        return concretise(m, inp)
+
+    def body(self, inp):
+        c = inp["c"]
+        v = AngularCoordinates(c.copy()).to_3d()
+        x, y, z = v[0, 0], v[0, 1], v[0, 2]
+        dec = c[0, 1]
+        if isinstance(x, SV):
+            off_pole = abs(dec) < np.pi / 2
+            lim = 0.0 if self.wrong != "large" else 0.25  # twin: demands a projection that cannot exist near the poles
+            return [Check("ra_recoverable_off_the_pole", cond=(~off_pole) | (abs(x) > lim) | (abs(y) > lim)),
+                    Check("components_in_range", cond=(abs(x) <= 1.0) & (abs(y) <= 1.0) & (abs(z) <= 1.0))]
+        off_pole = bool(abs(dec) < np.pi / 2)
+        lim = 0.0 if self.wrong != "large" else 0.25
+        return [Check("ra_recoverable_off_the_pole", cond=(not off_pole) or bool(abs(x) > lim) or bool(abs(y) > lim)),
+                Check("components_in_range", cond=bool(abs(x) <= 1.0 and abs(y) <= 1.0 and abs(z) <= 1.0))]
 
 
 class Mean(Harness):
@@ -363,10 +451,11 @@ class Sgn(Harness):
 
 
 def harnesses(tier):
-    hs = [Sgn(), RoundTrip(), Chord(), TooLong(), Distance(), From3d(), Mean(1, False), Mean(2, False), DistanceF64()]
+    hs = [Sgn(), RoundTrip(), Chord(), TooLong(), Distance(), From3d(), Mean(1, False), Mean(2, False), DistanceF64(),
+          DistanceF64(family="x_axis"), DistanceF64(family="antipodal"), From3dF64(), To3dF64()]
     if tier == "thorough":
-        hs += [Mean(2, True), Mean(3, True), DistanceF64(families=True)]
-    hs += [RoundTrip(wrong="shift"), DistanceF64(wrong="exact")]
+        hs += [Mean(2, True), Mean(3, True)]
+    hs += [RoundTrip(wrong="shift"), DistanceF64(wrong="exact"), From3dF64(wrong="closed"), To3dF64(wrong="large")]
     return hs
 
 
